@@ -82,15 +82,17 @@ func init() {
 	explore.Register(&explore.Check{
 		ID:        "C01",
 		Level:     "model_checking",
-		Technique: "exhaustive enumeration of (startup parameters x message sent in place of the password x validator outcome x continuation history x delivery mode) on a real server with cleartext authentication, judged by a three-state reference machine (await-password / accepted / rejected-closed) and a differential run without authentication",
+		Technique: "exhaustive enumeration of (startup parameters x message sent in place of the password x validator outcome x continuation history x delivery mode) on a real server with cleartext authentication, judged by a three-state reference machine (await-password / accepted / rejected-closed) and a differential run without authentication; plus stateless schedule exploration (cooperative scheduler, preemption-bounded DFS with happens-before state caching, race monitor) of two connections authenticating concurrently",
 		Rule:      "27 messages in place of the password (well-formed with accept/reject/fail validator outcomes, malformed, every other type byte, truncated, oversized, EOF) x 3 startup parameter sets x all continuations of length <= d over 7 letters x {pipelined in the same segment, after quiescence}; distinct = distinct cases",
 		Assumptions: []string{
 			"not asserted: whether validator failure / malformed cases send an ErrorResponse before closing; a ReadyForQuery directly behind the rejection ErrorResponse is noted, not a violation",
 			"a password message with surplus bytes after the NUL may be accepted (with exactly the string before the NUL) or rejected",
 		},
 		Enumerate: c01Enumerate,
+		After:     explore.MergeSched("C01", true),
 		Bounds: func(tier string) map[string]any {
-			return map[string]any{"continuation_depth": c01Depth(tier), "in_place_letters": len(c01Letters()), "continuation_letters": 7}
+			return map[string]any{"continuation_depth": c01Depth(tier), "in_place_letters": len(c01Letters()), "continuation_letters": 7,
+				"schedule_part": "scenarios S-G (two users authenticating concurrently, both accepted) and S-J (one accepted, one rejected with a pipelined Query): all schedules with <= 2 preemptions (thorough: all schedules), race monitor on"}
 		},
 		RequiredOutcomes: []string{"accepted", "rejected-by-validator", "validator-failed", "malformed-closed"},
 	})
